@@ -62,6 +62,14 @@ func verifC37Int(ws []string, k string) (int, bool) {
 	return n, err == nil && n >= 0
 }
 
+func verifC37PollName(ch, l int) string {
+	s := "poll:" + strconv.Itoa(ch)
+	for len(s) < l {
+		s += "x"
+	}
+	return s
+}
+
 func verifC37Name(ch, l int) string {
 	s := "c" + strconv.Itoa(ch)
 	for len(s) < l {
@@ -425,7 +433,7 @@ func (h *verifC37H) step(ws []string) (res string) {
 		}
 		if kind == "s" {
 			// shared-poll subscribe (its own reservation path: handleSharedPollSubscribe)
-			req.Channel = "poll:" + strconv.Itoa(ch)
+			req.Channel = verifC37PollName(ch, l)
 			req.Type = int32(SubscriptionTypeSharedPoll)
 		}
 		if kind == "p" {
@@ -523,6 +531,13 @@ func (h *verifC37H) step(ws []string) (res string) {
 		}
 		if ch >= 200 {
 			name = "poll:" + strconv.Itoa(ch)
+			c.mu.RLock()
+			for k := range c.channels {
+				if strings.HasPrefix(k, "poll:"+strconv.Itoa(ch)) {
+					name = k
+				}
+			}
+			c.mu.RUnlock()
 		}
 		rw := testReplyWriterWrapper()
 		err := c.handleUnsubscribe(&protocol.UnsubscribeRequest{Channel: name}, &protocol.Command{Id: 2}, time.Now(), rw.rw)
